@@ -903,7 +903,18 @@ class ndarray(_OpsMixin):
     def copy(self):
         return ndarray(_Store(self._cells()), list(range(self.size)), self.shape, self.dtype)
 
-    def ravel(self):
+    def ravel(self, order="C"):
+        if order == "F":
+            return self.T.ravel() if self.ndim == 2 else self.ravel()
+        if order in ("K", "A") and self.ndim == 2 and not self._contig:
+            # memory order: only the transposed view of a row-major block is modelled (its cells in the order they lie in the buffer)
+            if sorted(self.T._pos) == list(self.T._pos):
+                cells = [self._store.cells[q] for q in self.T._pos]
+                return ndarray(_Store(cells), list(range(self.size)), (self.size,), self.dtype)
+            if order == "K":
+                raise ShimUnsupported("ravel(order='K') of a strided view")
+        elif order not in ("C", "K", "A"):
+            raise ValueError("order must be one of 'C', 'F', 'A', or 'K'")
         if self._contig or self.ndim <= 1:
             return ndarray(self._store, self._pos, (self.size,), self.dtype, self._contig)
         return ndarray(_Store(self._cells()), list(range(self.size)), (self.size,), self.dtype)
@@ -2626,3 +2637,16 @@ def histogram(a, bins=10, range=None, density=None, weights=None):
             q = math.nan if q == 0 or q != q else math.copysign(math.inf, q)
         dens.append(q)
     return ndarray(_Store(dens), list(builtins.range(bins)), (bins,), _F64), e_arr
+
+
+def fromiter(iterable, dtype, count=-1):
+    """1-D array from an iterable, every element cast to dtype (unsafe casting, like numpy)"""
+    items = list(iterable)
+    if count is not None and count >= 0:
+        if len(items) < count:
+            raise ValueError("iterator too short")
+        items = items[:count]
+    dt = _dtype_of(dtype) if "_dtype_of" in globals() else globals()["dtype"](dtype)
+    if not items:
+        return zeros(0, dtype=dt)
+    return concatenate([asarray(x).reshape(1) for x in items]).astype(dt)
